@@ -151,8 +151,6 @@ def parse_kani_output(out):
         mm = re.match(r'^Verification Time: ([\d.]+)s', s)
         if mm:
             cur['time_s'] = float(mm.group(1))
-        if 'is not currently supported by Kani' in s or 'unsupported' in s.lower() and 'construct' in s.lower():
-            cur['unsupported'].append(s[:200])
     return res
 
 
